@@ -16,6 +16,7 @@ From SV Require Import Fmt.VtfSides Fmt.VtfSidesProofs.
 From SV Require Import Fmt.VtfWholeFile Fmt.VtfWholeFileProofs Fmt.VtfSheetProofs.
 From SV Require Import Fmt.VtfAccess Fmt.VtfAccessProofs Gen.VtfAccess_gen Fmt.VtfAccessGenProofs.
 From SV Require Import Fmt.VtfBluescreen Fmt.VtfBluescreenProofs.
+From SV Require Import Fmt.VtfFrameCodec Fmt.VtfFrameCodecProofs Fmt.VtfPixelsInFileProofs.
 Import ListNotations.
 
 (** ** Pixels *)
@@ -542,3 +543,57 @@ Theorem c15_bluescreen_wrong_bit_refuted :
   /\ run bs_save_bit6 [1; 2; 3; 128] = [0; 0; 255]
   /\ bluescreen_q 0 0 255 255 = [0; 0; 0; 0].
 Proof. exact bs_wrong_bit_refuted. Qed.
+
+(** ** Round 4: from one pixel to every frame of a file
+
+    [encode_frame] / [decode_frame]: a frame is stored as the concatenation of its pixels' stored bytes (the only loop shape
+    the codec translator accepts).  The per-pixel laws lifted to frames of any size, then composed with the container: *)
+Theorem c15_frame_load_of_save : forall c q, rt_ok c q = true -> (0 < bpp c)%nat ->
+  forall ps, Forall bytes ps ->
+    decode_frame c (encode_frame c ps) = map (run q) ps
+    /\ bytes (encode_frame c ps) /\ length (encode_frame c ps) = (bpp c * length ps)%nat.
+Proof. exact frame_load_of_save. Qed.
+Theorem c15_frame_stored_fixpoint : forall c q canon, rt_ok c q = true -> sf_ok c canon = true -> (0 < bpp c)%nat ->
+  forall ps, Forall bytes ps ->
+    encode_frame c (decode_frame c (encode_frame c ps)) = encode_frame c ps.
+Proof. exact frame_stored_fixpoint. Qed.
+(** 8 bits per used channel (identity specification): the whole frame comes back unchanged *)
+Theorem c15_frame_exact : forall c, rt_ok c spec_rgba = true -> (0 < bpp c)%nat ->
+  forall ps, Forall bytes ps -> Forall (fun p => length p = 4%nat) ps -> decode_frame c (encode_frame c ps) = ps.
+Proof. exact frame_exact. Qed.
+(** THE PIXEL HALF OF THE PROPERTY IN ONE STATEMENT.  Formats F, flag expressions G, side lists c, loop nests so/ro and the
+    codec cd are the objects regenerated from the source; their boolean premises are instance obligations of every run.
+    For any object version, written version, cubemap or volume, number of frames and levels, and any pixels: the file
+    save() writes is decoded by read(), and for EVERY (frame, side/depth, mipmap) that read() visits, decoding the bytes it
+    finds at the offset it computes gives, pixel by pixel, the documented quantisation [q] of the pixels that were saved
+    (the identity on the used channels for the 8-bit formats: c15_spec_rgba ...). *)
+Theorem c15_saved_pixels_read_back_73 : forall F G v low_size file c so ro cd q,
+  fmts_wf F = true -> flags_ok G = true -> (3 <= v_minor v)%Z -> vfile_fits F G v = true ->
+  sides_ok c = true -> lorder_eqb so ro = true ->
+  rt_ok cd q = true -> (0 < bpp cd)%nat ->
+  forall envmap object depth mips frames (pixels : key -> list (list N)) (npix : nat -> nat),
+    (forall k, Forall bytes (pixels k)) -> (forall k, List.length (pixels k) = npix (k_mip k)) ->
+    v_high v = map (fun k => encode_frame cd (pixels k)) (walk so mips frames (save_sides c envmap object (v_minor v) depth) key0) ->
+    encode_file F G v = Some file ->
+    (exists meta, decode_file F G low_size file = Some meta)
+    /\ Forall (fun ok => decode_frame cd (slice file (fst ok) (bpp cd * npix (k_mip (snd ok)))) = map (run q) (pixels (snd ok)))
+              (read_table ro mips frames (read_sides c envmap (v_minor v) depth) (fun m => (bpp cd * npix m)%nat) (high_off73 F v)).
+Proof. exact saved_pixels_read_back_73. Qed.
+Theorem c15_saved_pixels_read_back_pre73 : forall F G v file c so ro cd q,
+  fmts_wf F = true -> (v_minor v < 3)%Z -> vfile_fits_old F v = true ->
+  sides_ok c = true -> lorder_eqb so ro = true ->
+  rt_ok cd q = true -> (0 < bpp cd)%nat ->
+  forall envmap object depth mips frames (pixels : key -> list (list N)) (npix : nat -> nat),
+    (forall k, Forall bytes (pixels k)) -> (forall k, List.length (pixels k) = npix (k_mip k)) ->
+    v_high v = map (fun k => encode_frame cd (pixels k)) (walk so mips frames (save_sides c envmap object (v_minor v) depth) key0) ->
+    encode_file F G v = Some file ->
+    (exists meta, decode_file F G (List.length (v_low v)) file = Some meta)
+    /\ Forall (fun ok => decode_frame cd (slice file (fst ok) (bpp cd * npix (k_mip (snd ok)))) = map (run q) (pixels (snd ok)))
+              (read_table ro mips frames (read_sides c envmap (v_minor v) depth) (fun m => (bpp cd * npix m)%nat)
+                          (hs_old F v + List.length (v_low v))%nat).
+Proof. exact saved_pixels_read_back_pre73. Qed.
+(** non-vacuity of the frame level: the identity codec on a frame of two pixels *)
+Example c15_frame_inhabited :
+  let c := {| bpp := 4; save_e := ident 4; load_e := ident 4 |} in
+  rt_ok c spec_rgba = true /\ decode_frame c (encode_frame c [[1; 2; 3; 4]; [5; 6; 7; 8]]) = [[1; 2; 3; 4]; [5; 6; 7; 8]].
+Proof. exact frame_inhabited. Qed.
